@@ -412,3 +412,341 @@ def case_c32(bindir, seed, index, tier, extra):
 def replay_c32(bindir, rp):
     vs, _, _ = exec_history_c32(bindir, rp["history"])
     return [(c, d) for (c, d, i) in vs]
+
+
+# ================================================================================================
+# C10: hermetic, fully hashed environment
+
+ENV_POOL = ["PV_A", "PV_B", "CV_A", "UV_A", "OTHER_1", "OTHER_2", "LANG", "EDITOR", "LC_ALL_X", "PYTHONPATH"]
+
+
+def gen_case_c10(seed, tier):
+    rng = Rng(seed)
+    spec = rs.new_spec()
+    spec["config"]["passenv"] = ["CV_A"] if rng.chance(0.6) else []
+    spec["config"]["passunsafeenv"] = ["UV_A"] if rng.chance(0.6) else []
+    spec["config"]["hash"] = rng.choice(HASHES)
+    spec["pkgs"]["e"] = {"files": {"s.txt": "src\n"}, "targets": [], "use_defs": False}
+    n = rng.rng(2, 4)
+    for i in range(n):
+        pe = [v for v in ["PV_A", "PV_B"] if rng.chance(0.5)]
+        t = {"name": "t%d" % i, "kind": "genrule", "srcs": ["f:s.txt"] + (["t://e:t%d" % (i - 1)] if i > 0 and rng.chance(0.4) else []), "deps": [], "outs": ["t%d.out" % i],
+             "salt": "s%d" % i, "dir": None, "binary": False, "env": {}, "pass_env": pe, "labels": [], "envdump": True}
+        spec["pkgs"]["e"]["targets"].append(t)
+    env = {}
+    for v in ENV_POOL:
+        if rng.chance(0.8):
+            env[v] = "canary-%s-0-%d" % (v.lower(), rng.intn(100000))
+    steps = []
+    for j in range(rng.rng(2, 5)):
+        v = rng.choice(ENV_POOL)
+        if rng.chance(0.15) and v in env:
+            steps.append({"var": v, "value": None})
+        else:
+            steps.append({"var": v, "value": "canary-%s-%d-%d" % (v.lower(), j + 1, rng.intn(100000))})
+    return {"spec": spec, "env": env, "steps": steps, "seed": seed, "threads": rng.choice([1, 4])}
+
+
+def env_section(path):
+    """The target's own environment dump: the lines before the first dumped input (F/D lines)."""
+    try:
+        lines = open(path, errors="replace").read().splitlines()
+    except OSError:
+        return None
+    out = []
+    for l in lines[1:]:
+        if l.startswith(("F ", "D ")):
+            break
+        out.append(l)
+    return out
+
+
+def parse_dump(path):
+    sec = env_section(path)
+    if sec is None:
+        return None
+    d = {}
+    for l in sec:
+        if "=" in l:
+            k, v = l.split("=", 1)
+            d[k] = v
+    return d
+
+
+def exec_case_c10(bindir, case):
+    out = []
+    w = hl.World(bindir, "c10")
+    try:
+        spec = case["spec"]
+        w.write(spec)
+        args = ["build", "//e:all"] + hl.BASE_ARGS + ["-n", str(case["threads"])]
+        env = dict(case["env"])
+        targets = spec["pkgs"]["e"]["targets"]
+        labs = ["//e:" + t["name"] for t in targets]
+        cfg_pass = set(spec["config"]["passenv"])
+        cfg_unsafe = set(spec["config"]["passunsafeenv"])
+
+        def check_dumps(when, ran):
+            for t in targets:
+                lab = "//e:" + t["name"]
+                d = parse_dump(os.path.join(w.repo, "plz-out/gen/e", t["outs"][0]))
+                if d is None:
+                    out.append(("missing-output", "%s: output of %s missing" % (when, lab), None))
+                    return
+                raw = "\n".join(env_section(os.path.join(w.repo, "plz-out/gen/e", t["outs"][0])) or [])
+                allowed = set(t["pass_env"]) | cfg_pass | cfg_unsafe
+                for v, val in env.items():
+                    if v not in allowed and val in raw:
+                        out.append(("env-leak", "%s: the build environment of %s contains the invoking shell's value of %s (%s), which is in no pass_env list" % (when, lab, v, val), None))
+                        return
+                # hashed pass lists: the recorded output must reflect the CURRENT value (a stale value means no rebuild happened)
+                for v in sorted(set(t["pass_env"]) | cfg_pass):
+                    want = env.get(v)
+                    got = d.get(v)
+                    if want is not None and got != want:
+                        out.append(("pass-env-stale", "%s: %s lists %s in pass_env (target or config); the invoking value is %r but the built output records %r" % (when, lab, v, want, got), None))
+                        return
+                # unsafe variables: visible whenever the command actually ran in this invocation
+                if lab in ran:
+                    for v in sorted(cfg_unsafe):
+                        if env.get(v) is not None and d.get(v) != env.get(v):
+                            out.append(("unsafe-env-not-passed", "%s: %s ran but did not see the current value of pass_unsafe_env variable %s" % (when, lab, v), None))
+                            return
+
+        res, log = w.plz(args, subseed(case["seed"], "inv0"), env_extra=env)
+        if res.exit != 0:
+            out.append(("build-failed", "initial build exited %d: %s" % (res.exit, res.stderr[-500:]), None))
+            return out, w.stats, w.sigs
+        check_dumps("initial build", [l[1] for l in log if l[0] == "S"])
+        for i, st in enumerate(case["steps"]):
+            if out:
+                break
+            v = st["var"]
+            old = env.get(v)
+            if st["value"] is None:
+                env.pop(v, None)
+            else:
+                env[v] = st["value"]
+            changed = env.get(v) != old
+            res, log = w.plz(args, subseed(case["seed"], "inv%d" % (i + 1)), env_extra=env)
+            ran = [l[1] for l in log if l[0] == "S"]
+            when = "step %d (%s=%r)" % (i + 1, v, st["value"])
+            if res.exit != 0:
+                out.append(("build-failed", "%s: build exited %d: %s" % (when, res.exit, res.stderr[-500:]), None))
+                break
+            hashed_for = set(l for l, t in zip(labs, targets) if v in t["pass_env"])
+            if v in cfg_pass:
+                hashed_for = set(labs)
+            # dependants of a rebuilt target may rerun (their input changed), so compute the allowed set transitively
+            allowed = set(hashed_for)
+            grew = True
+            while grew:
+                grew = False
+                for l, t in zip(labs, targets):
+                    if l not in allowed and any(s.startswith("t:") and s[2:] in allowed for s in t["srcs"]):
+                        allowed.add(l)
+                        grew = True
+            if not changed:
+                allowed = set()
+            extra = [l for l in ran if l not in allowed]
+            if extra:
+                out.append(("rebuilt-on-unhashed-env", "%s: changing %s, which is not in the pass_env of %s, made their commands run again" % (when, v, extra), None))
+                break
+            check_dumps(when, ran)
+        return out, w.stats, w.sigs
+    finally:
+        w.close()
+
+
+def case_c10(bindir, seed, index, tier, extra):
+    r = CaseResult()
+    case = gen_case_c10(seed, tier)
+    vs, stats, sigs = exec_case_c10(bindir, case)
+    r.evals = stats["invocations"]
+    r.stats = stats
+    r.sigs = [sig(seed, json.dumps(case["steps"]))]
+    if index < 2:
+        r.sample = {"config_passenv": case["spec"]["config"]["passenv"], "config_passunsafeenv": case["spec"]["config"]["passunsafeenv"],
+                    "targets": {t["name"]: t["pass_env"] for t in case["spec"]["pkgs"]["e"]["targets"]}, "steps": case["steps"]}
+    for (c, d, _) in vs[:1]:
+        r.violations.append(Violation(c, d, {"engine": "histsim", "case": case}))
+    return r
+
+
+def replay_c10(bindir, rp):
+    vs, _, _ = exec_case_c10(bindir, rp["case"])
+    return [(c, d) for (c, d, i) in vs]
+
+
+# ================================================================================================
+# C11: test-result reuse
+
+
+def gen_case_c11(seed, tier):
+    rng = Rng(seed)
+    spec = rs.new_spec()
+    if rng.chance(0.3):
+        spec["config"]["cache"] = "@CACHE@"
+    spec["config"]["hash"] = rng.choice(HASHES)
+    pk = {"files": {}, "targets": [], "use_defs": False}
+    spec["pkgs"]["t"] = pk
+    ntests = rng.rng(2, 4)
+    gens = []
+    for i in range(ntests):
+        val = "pass" if rng.chance(0.7) else "fail"
+        kind = rng.choice(["file", "file", "gen"])
+        t = {"name": "t%d" % i, "kind": "gentest", "srcs": [], "outs": [], "salt": "s%d" % i, "data": []}
+        if kind == "file":
+            pk["files"]["d%d.txt" % i] = val + "\n"
+            t["data"] = ["f:d%d.txt" % i]
+        else:
+            pk["files"]["g%d.txt" % i] = val + "\n"
+            pk["targets"].append({"name": "g%d" % i, "kind": "genrule", "srcs": ["f:g%d.txt" % i], "outs": ["g%d.out" % i], "salt": "g", "raw_copy": True})
+            t["data"] = ["t::g%d" % i]
+        pk["targets"].append(t)
+    states = [rs.clone(spec)]
+    steps = []
+    cur = rs.clone(spec)
+    for j in range(rng.rng(2, 6)):
+        r = rng.intn(100)
+        if r < 20:
+            steps.append({"kind": "repeat", "desc": "no change", "state": len(states) - 1})
+            continue
+        if r < 28:
+            steps.append({"kind": "rm-plz-out", "desc": "rm -rf plz-out", "state": len(states) - 1})
+            continue
+        if r < 36 and len(states) > 1:
+            k = rng.intn(len(states))
+            cur = rs.clone(states[k])
+            states.append(rs.clone(cur))
+            steps.append({"kind": "edit", "desc": "revert to state %d" % k, "state": len(states) - 1})
+            continue
+        nxt = rs.clone(cur)
+        files = sorted(nxt["pkgs"]["t"]["files"])
+        if r < 80:
+            f = rng.choice(files)
+            old = nxt["pkgs"]["t"]["files"][f].strip()
+            nxt["pkgs"]["t"]["files"][f] = ("fail" if old == "pass" else "pass") + "\n"
+            desc = "flip %s to %s" % (f, nxt["pkgs"]["t"]["files"][f].strip())
+        else:
+            ts = [t for t in nxt["pkgs"]["t"]["targets"] if t["kind"] == "gentest"]
+            t = rng.choice(ts)
+            t["salt"] = "s%d" % rng.intn(100000)
+            desc = "change test_cmd of %s" % t["name"]
+        cur = nxt
+        states.append(rs.clone(cur))
+        steps.append({"kind": "edit", "desc": desc, "state": len(states) - 1})
+    return {"states": states, "steps": steps, "seed": seed, "threads": rng.choice([1, 4])}
+
+
+def c11_render(spec, log):
+    """Fills in the commands of a C11 spec (they carry the absolute action-log path)."""
+    s = rs.clone(spec)
+    for t in s["pkgs"]["t"]["targets"]:
+        lab = "//t:" + t["name"]
+        if t["kind"] == "gentest":
+            t["test_cmd"] = 'echo "TS %s" >> %s; : %s; test "`cat $DATA`" = pass' % (lab, log, t["salt"])
+        else:
+            t["cmd"] = 'echo "S %s" >> %s; cat $SRCS > $OUT; echo "E %s ok" >> %s' % (lab, log, lab, log)
+    return s
+
+
+def c11_expect(spec):
+    exp, dig = {}, {}
+    files = spec["pkgs"]["t"]["files"]
+    for t in spec["pkgs"]["t"]["targets"]:
+        if t["kind"] != "gentest":
+            continue
+        d = t["data"][0]
+        content = files[d[2:]] if d.startswith("f:") else files["g" + t["name"][1:] + ".txt"]
+        exp["//t:" + t["name"]] = content.strip() == "pass"
+        dig["//t:" + t["name"]] = sig(t["salt"], d, content)
+    return exp, dig
+
+
+def parse_test_xml(path):
+    import xml.etree.ElementTree as ET
+    res = {}
+    try:
+        root = ET.parse(path).getroot()
+    except Exception:
+        return None
+    for ts in root.iter("testsuite"):
+        name = "//%s:%s" % (ts.get("package"), ts.get("name"))
+        bad = int(ts.get("failures") or 0) + int(ts.get("errors") or 0)
+        cached = any(p.get("name") == "cached" and p.get("value") == "true" for p in ts.iter("property"))
+        res[name] = {"passed": bad == 0, "cached": cached}
+    return res
+
+
+def exec_case_c11(bindir, case):
+    out = []
+    w = hl.World(bindir, "c11")
+    try:
+        args = ["test", "//t:all"] + hl.BASE_ARGS + ["-n", str(case["threads"])]
+        passed = {}
+        seq = [{"kind": "initial", "desc": "initial", "state": 0}] + case["steps"]
+        for i, st in enumerate(seq):
+            spec = resolve_cache(case["states"][st["state"]], w)
+            if st["kind"] == "rm-plz-out":
+                shutil.rmtree(os.path.join(w.repo, "plz-out"), ignore_errors=True)
+            w.write(c11_render(spec, w.log))
+            exp, dig = c11_expect(spec)
+            res, log = w.plz(args, subseed(case["seed"], "inv%d" % i))
+            when = "step %d (%s)" % (i, st["desc"])
+            if res.exit == simlib.EXIT_HANG:
+                out.append(("hang", "%s: plz test did not terminate" % when, i))
+                break
+            ran = set(l[1] for l in log if l[0] == "TS")
+            allpass = all(exp.values())
+            if allpass and res.exit != 0:
+                out.append(("test-exit-nonzero-all-pass", "%s: every test passes on this tree but plz test exited %d: %s" % (when, res.exit, res.stderr[-400:]), i))
+                break
+            if not allpass and res.exit == 0:
+                out.append(("test-exit-zero-with-failure", "%s: tests %s fail on this tree but plz test exited 0" % (when, [l for l in exp if not exp[l]]), i))
+                break
+            xml = parse_test_xml(os.path.join(w.repo, "plz-out/log/test_results.xml"))
+            if xml is not None:
+                for lab in sorted(exp):
+                    if lab in xml and xml[lab]["passed"] != exp[lab]:
+                        out.append(("wrong-test-outcome", "%s: %s is reported as %s but a fresh run on this tree %s" % (when, lab, "passed" if xml[lab]["passed"] else "failed", "passes" if exp[lab] else "fails"), i))
+                        break
+            if out:
+                break
+            for lab in sorted(exp):
+                if lab not in ran:
+                    if not exp[lab]:
+                        out.append(("failing-result-reused", "%s: %s fails on this tree but its test command was not run (a stored result was used)" % (when, lab), i))
+                        break
+                    if dig[lab] not in passed.get(lab, set()):
+                        out.append(("result-reused-with-changed-inputs", "%s: the test command of %s was not run, but no earlier passing run had the current test command and data" % (when, lab), i))
+                        break
+                    w.stats["results_reused"] = w.stats.get("results_reused", 0) + 1
+                else:
+                    w.stats["tests_run"] = w.stats.get("tests_run", 0) + 1
+                    if exp[lab]:
+                        passed.setdefault(lab, set()).add(dig[lab])
+            if out:
+                break
+        return out, w.stats, w.sigs
+    finally:
+        w.close()
+
+
+def case_c11(bindir, seed, index, tier, extra):
+    r = CaseResult()
+    case = gen_case_c11(seed, tier)
+    vs, stats, sigs = exec_case_c11(bindir, case)
+    r.evals = stats["invocations"]
+    r.stats = stats
+    r.sigs = [sig(seed, len(case["steps"]))] if len(case["steps"]) >= 2 else []
+    if index < 2:
+        r.sample = {"steps": [s["desc"] for s in case["steps"]], "files": case["states"][0]["pkgs"]["t"]["files"]}
+    for (c, d, i) in vs[:1]:
+        r.violations.append(Violation(c, d, {"engine": "histsim", "case": case}))
+    return r
+
+
+def replay_c11(bindir, rp):
+    vs, _, _ = exec_case_c11(bindir, rp["case"])
+    return [(c, d) for (c, d, i) in vs]
